@@ -249,6 +249,7 @@ func runCodec(c CodecCase, rec *h.Rec) error {
 
 	switch c.Op {
 	case "Encrypt", "EncryptNew", "EncryptZero":
+		keyName := "rlwe.Encrypt" // Encrypt, EncryptNew and EncryptZero share encryptZero*: one key family
 		used := rlwe.NewEncryptor(e.rp, key)
 		for i := 0; i < c.Hist; i++ {
 			pt := e.mkPt(CtSpec{Drop: i % (e.maxLevel + 1)}, h.NewSplitMix(c.Seed+uint64(i)+1))
@@ -293,7 +294,7 @@ func runCodec(c CodecCase, rec *h.Rec) error {
 		}
 		ctA, errA, panA := do(used, c.Reuse)
 		if post := snapAny(pt); post != pre {
-			return fail("C09:"+opName+":input-mutated:pt", "%s changed its input plaintext", opName)
+			return fail("C09:"+keyName+":input-mutated:pt", "%s changed its input plaintext", opName)
 		}
 		if err := keysIntact(); err != nil {
 			return err
@@ -315,23 +316,23 @@ func runCodec(c CodecCase, rec *h.Rec) error {
 			}
 		}
 		if panA != "" {
-			return fail("C09:"+opName+":"+cause+":panic", "%s panicked: %s", opName, panA)
+			return fail("C09:"+keyName+":"+cause+":panic", "%s panicked: %s", opName, panA)
 		}
 		if errA != nil {
 			rec.Class("result=rejected-with-error")
 			return nil
 		}
 		if ctA.Degree() != ctB.Degree() || ctA.Level() != ctB.Level() {
-			return fail("C09:"+opName+":"+cause+":wrong-shape", "%s into a reused ciphertext (degree %d level %d) returns degree %d level %d; with a fresh output degree %d level %d", opName, c.Out.Deg, clampLevel(e.maxLevel, c.Out.Drop), ctA.Degree(), ctA.Level(), ctB.Degree(), ctB.Level())
+			return fail("C09:"+keyName+":"+cause+":wrong-shape", "%s into a reused ciphertext (degree %d level %d) returns degree %d level %d; with a fresh output degree %d level %d", opName, c.Out.Deg, clampLevel(e.maxLevel, c.Out.Drop), ctA.Degree(), ctA.Level(), ctB.Degree(), ctB.Level())
 		}
 		if ma, mb := metaString(ctA.MetaData, false), metaString(ctB.MetaData, false); ma != mb {
-			return fail("C09:"+opName+":"+cause+":wrong-metadata", "%s: metadata {%s} vs {%s} with a fresh output", opName, ma, mb)
+			return fail("C09:"+keyName+":"+cause+":wrong-metadata", "%s: metadata {%s} vs {%s} with a fresh output", opName, ma, mb)
 		}
 		pa, pb := phase(e.rp, sk, ctA), phase(e.rp, sk, ctB)
 		for i := range pa {
 			d := new(big.Int).Sub(pa[i], pb[i])
 			if d.Abs(d).Cmp(noiseBound) > 0 {
-				return fail("C09:"+opName+":"+cause+":wrong-value", "%s: decryption of the result differs from the decryption of the result of a brand-new encryptor with a fresh output by %s at coefficient %d (noise bound %s)", opName, d, i, noiseBound)
+				return fail("C09:"+keyName+":"+cause+":wrong-value", "%s: decryption of the result differs from the decryption of the result of a brand-new encryptor with a fresh output by %s at coefficient %d (noise bound %s)", opName, d, i, noiseBound)
 			}
 		}
 		rec.Class("result=decrypts-equal")
